@@ -22,6 +22,10 @@ pub struct Case {
     pub perm: Vec<u16>,
     /// position selector for the single-character mutation
     pub mutate_at: u16,
+    /// a repeated key: (index of the parameter whose key is repeated, position it is inserted at, its other value).
+    /// Only P1 / P4 / P6 apply then (the statement requires distinct keys for the other relations).
+    #[serde(default)]
+    pub repeat: Option<(u8, u8, String)>,
 }
 
 const PATH_ATOMS: &[&str] = &[
@@ -111,6 +115,17 @@ pub fn check(case: &Case) -> Outcome {
     let mut out = Outcome::new();
     out.evals = 0;
     let cfg = &case.config;
+    let mut params_owned = case.params.clone();
+    let mut repeated = false;
+    if let Some((idx, pos, val)) = &case.repeat {
+        if !params_owned.is_empty() {
+            let key = params_owned[*idx as usize % params_owned.len()].0.clone();
+            let at = *pos as usize % (params_owned.len() + 1);
+            params_owned.insert(at, (key, Some(val.clone())));
+            repeated = true;
+        }
+    }
+    let case = &Case { params: params_owned, ..case.clone() };
     let u = url_of(&case.path, &case.params);
     let mut rule = RuleSpec::simple("u", &case.path);
     rule.source.query = if case.params.is_empty() { None } else { Some(query_of(&case.params)) };
@@ -133,6 +148,12 @@ pub fn check(case: &Case) -> Outcome {
     let (j1, j2) = (serde_json::to_string(&req_u).unwrap(), serde_json::to_string(&again).unwrap());
     if j1 != j2 {
         out.fail(format!("P6: rebuild(rebuild(q)) != rebuild(q) for {u:?}: {j2} vs {j1}"));
+        return out;
+    }
+
+    if repeated {
+        out.class("repeated-key(P1,P6 only)");
+        out.nontrivial = true;
         return out;
     }
 
@@ -285,8 +306,9 @@ pub fn strategy() -> BoxedStrategy<Case> {
     let param = (atoms(KEY_ATOMS, 1, 2), prop_oneof![1 => Just(None), 1 => Just(Some(String::new())), 6 => atoms(VAL_ATOMS, 1, 3).prop_map(Some)]);
     let params = prop::collection::vec(param, 0..=4);
     let marketing = prop::collection::vec((any::<u8>(), 0usize..7, pick(vec!["x".to_string(), "news letter".to_string(), "a+b".to_string(), "%C3%A9".to_string(), "".to_string()])), 0..=2);
-    (config_strategy(), path, params, marketing, prop::collection::vec(any::<u16>(), 4), any::<u16>())
-        .prop_map(|(config, path, params, marketing, perm, mutate_at)| {
+    let repeat = prop::option::weighted(0.12, (any::<u8>(), any::<u8>(), pick(vec!["1".to_string(), "2".to_string(), "".to_string(), "%41".to_string(), "x+y".to_string()])));
+    (config_strategy(), path, params, marketing, prop::collection::vec(any::<u16>(), 4), any::<u16>(), repeat)
+        .prop_map(|(config, path, params, marketing, perm, mutate_at, repeat)| {
             // keep decoded keys distinct under case folding, non-empty, and outside the marketing set
             let mut seen: Vec<String> = Vec::new();
             let mut ps = Vec::new();
@@ -301,7 +323,7 @@ pub fn strategy() -> BoxedStrategy<Case> {
             }
             let all = ["utm_source", "utm_medium", "utm_campaign", "utm_term", "utm_content", "ref", "gclid"];
             let marketing = marketing.into_iter().map(|(pos, k, v)| (pos, all[k].to_string(), v)).collect();
-            Case { config, path, params: ps, marketing, perm, mutate_at }
+            Case { config, path, params: ps, marketing, perm, mutate_at, repeat }
         })
         .boxed()
 }
@@ -309,7 +331,7 @@ pub fn strategy() -> BoxedStrategy<Case> {
 pub fn run(ctx: &Ctx) -> Report {
     let mut rep = Report::new(
         "C09",
-        "case = router config (all 64 flag combinations x 3 marketing sets) x URL (0..4 path segments and 0..4 query parameters over an alphabet with both letter cases, digits, sub-delims, space, quotes, <, >, +, %xx escapes, non-ASCII; decoded keys distinct) x marketing parameters x permutation x mutation point; \
+        "case = router config (all 64 flag combinations x 3 marketing sets) x URL (0..4 path segments and 0..4 query parameters over an alphabet with both letter cases, digits, sub-delims, space, quotes, <, >, +, %xx escapes, non-ASCII; decoded keys distinct, plus in ~12% of the cases one repeated key for which only P1 and P6 are required) x marketing parameters x permutation x mutation point; \
          oracle (metamorphic, through the caller flow Request::new + rebuild_with_config): P1 rule_from(u) matches req(u); P2 it does not match u with one alphanumeric of the path, a key or a value replaced; P3 match is invariant under query permutation; \
          P4 marketing parameters are ignored iff configured, and Location / Action::get_target == target + skipped parameters iff the pass flag; P5 ASCII case swap matches iff the case flag; P6 rebuild(rebuild(q)) == rebuild(q); \
          non-trivial = >=2 parameters not in sorted order, or an encoded / non-ASCII / '+' / space / quote character, or a marketing parameter; distinct by case hash",
